@@ -761,6 +761,8 @@ theorem execCore_good : ∀ (o : Op) (m : M), Good m (execCore o m)
       split
       · exact raise_good _ (Same.rfl' m).toExt
       · exact vitalFinish_good (m2 := { m with vs := Slot.handler fixNamesId :: m.vs, savedMasterName := m.masterName, savedSimulName := m.simulName, masterName := 0 }) rfl rfl rfl (exec_good body _)
+  | .spread n, m => by simp only [execCore]; exact ⟨rfl, rfl, rfl⟩
+  | .consume, m => by simp only [execCore]; exact ⟨rfl, rfl, rfl⟩
   | .verb v body, m => by
     simp only [execCore]
     exact verbFinish_good (m2 := { m with lastVerb := v }) ⟨rfl, rfl, rfl⟩ (exec_good body _)
